@@ -113,7 +113,7 @@ theorem sectionLoop_ok (maxOff : Nat) (f : Bytes) (cap : Nat) (hcap : 2 ≤ cap)
         exact ih _ _ _
       · exact ih _ _ _
 
-/-- `read_elf` loads or rejects every byte string (any `name[]` capacity of at least 2; the code has 128) -/
+/-- `read_elf` loads or rejects every byte string (any `name[]` capacity of at least 2; the code has 256 since C03-14) -/
 theorem read_total (maxOff : Nat) (f : Bytes) (cap : Nat) (hcap : 2 ≤ cap) : ∃ r, read maxOff f cap = .ok r := by
   unfold read
   simp only []
